@@ -6,6 +6,9 @@
 #include "sim.h"
 #include <sys/mman.h>
 #include <string.h>
+#include <stdarg.h>
+#include <stdio.h>
+#include <errno.h>
 #include <stdlib.h>
 #include <errno.h>
 #include <unistd.h>
@@ -370,6 +373,56 @@ char *sim_strdup(const char *s)
     if (d) memcpy(d, s, n);
     return d;
 }
+
+/* libc calls that allocate on the caller's behalf: the block they hand out is the caller's to free, so it has to come from the
+   simulated allocator -- otherwise a forgotten free() of a getline() buffer or a strndup() result would be invisible to the ledger.
+   (The pinned library uses none of these; a maintainer's tidy-up might.) */
+char *sim_strndup(const char *s, size_t n)
+{
+    size_t l = strnlen(s, n);
+    char *d = sim_malloc(l + 1);
+    if (d) { memcpy(d, s, l); d[l] = 0; }
+    return d;
+}
+ssize_t sim_getdelim(char **lineptr, size_t *n, int delim, FILE *fp)
+{
+    size_t len = 0;
+    int c;
+    if (!lineptr || !n || !fp) { errno = EINVAL; return -1; }
+    if (!*lineptr || !*n) { *n = 120; *lineptr = sim_realloc(*lineptr, *n); }      /* (allocated before the stream is looked at, as glibc does) */
+    while ((c = getc(fp)) != EOF) {
+        if (len + 2 > *n) { *n *= 2; *lineptr = sim_realloc(*lineptr, *n); }
+        (*lineptr)[len++] = (char)c;
+        if (c == delim) break;
+    }
+    (*lineptr)[len] = 0;
+    return len ? (ssize_t)len : -1;
+}
+ssize_t sim_getline(char **lineptr, size_t *n, FILE *fp) { return sim_getdelim(lineptr, n, '\n', fp); }
+ssize_t sim_getdelim2(char **lineptr, size_t *n, int delim, FILE *fp) { return sim_getdelim(lineptr, n, delim, fp); }      /* (__getdelim: what glibc's inline getline() calls) */
+int sim_vasprintf(char **out, const char *fmt, va_list ap)
+{
+    va_list ap2;
+    int n;
+    va_copy(ap2, ap);
+    n = vsnprintf(NULL, 0, fmt, ap2);
+    va_end(ap2);
+    if (n < 0) { *out = NULL; return -1; }
+    *out = sim_malloc((size_t)n + 1);
+    if (!*out) return -1;
+    vsnprintf(*out, (size_t)n + 1, fmt, ap);
+    return n;
+}
+int sim_asprintf(char **out, const char *fmt, ...)
+{
+    va_list ap;
+    int n;
+    va_start(ap, fmt);
+    n = sim_vasprintf(out, fmt, ap);
+    va_end(ap);
+    return n;
+}
+void *sim_reallocarray(void *p, size_t a, size_t b) { if (b && a > (size_t)-1 / b) { errno = ENOMEM; return NULL; } return sim_realloc(p, a * b); }
 
 void sa_check(void)
 {
